@@ -81,7 +81,18 @@ def worker(job: dict) -> dict:
             T = next(x for x in ev if x["ev"] == "mps_new")["target_times"]
         K = len(T) - 1
         if len(rows) < K or any(r is None for r in rows[:K]):
-            raise RuntimeError("missing per-step hook events")
+            # the per-step hook events are not all there (a refactoring moved / dropped an update): take the rows and matrices
+            # from the adapter's data (only their step-to-step equality and their scale are used here)
+            from emu_base import PulserData
+            cfg_ = SVConfig(dt=job["dt"], observables=obs, log_level=100, gpu=False) if job["backend"] == "sv" else \
+                MPSConfig(dt=job["dt"], observables=obs, log_level=100)
+            d_ = next(iter(PulserData(sequence=seq, config=cfg_, dt=job["dt"]).get_sequences()))
+            Td = [float(t) for t in d_.target_times]
+            rows = [(d_.omega[k].real.tolist(), d_.delta[k].real.tolist(), d_.phi[k].real.tolist()) for k in range(len(Td) - 1)]
+            mats = [torch.as_tensor(d_.interaction_matrix(0.5 * (Td[k] + Td[k + 1]))).tolist() for k in range(len(Td) - 1)]
+            out["rows_from_adapter"] = True
+            if len(rows) < K:
+                raise RuntimeError("missing per-step hook events")
         # scale of H: sum of |coefficients|
         def hscale(r, m):
             om, de, _ = (np.abs(np.asarray(x, float)) for x in r[:3])
@@ -195,6 +206,9 @@ def run(ctx: Ctx) -> None:
     n = ctx.pick(48, 400)
     jobs = make_jobs(ctx, n)
     results = pmap(worker, jobs)
+    nfb = sum(1 for r in results if r.get("rows_from_adapter"))
+    if nfb:
+        ctx.model_drift(f"per-step hook events (h_update / mps_update_h with the evolution Hamiltonian) incomplete in {nfb} runs: constant windows taken from the adapter's rows instead")
     traces, meta = [], {}
     worst = 0.0
     for job, r in zip(jobs, results):
